@@ -1,30 +1,46 @@
 (* Corr/C12.v — correspondence + spec oracle for ACCESS (C12).
-   A case packs many points; a point is one ACCESS call made on the real handler
-   (HandleCall -> ValidateAuthentication -> handleAccess) with the observed `access` word of the reply.
+   A case packs many points; a point is one ACCESS call made on the real server path
+   (HandleCall -> ValidateAuthentication -> applySquashing -> handleAccess) on an export whose
+   squash mode is none, root or all, with the RAW AUTH_SYS credential that was sent and the observed
+   `access` word of the reply.  The property is about the EFFECTIVE identity: the oracle derives it
+   from the raw credential with the squash table of Model/Auth.v (C10_table) and judges the reply
+   by it; the effective ids HandleCall stored in the AuthContext are compared too.
    Step index of a result = index of the point inside the case. *)
 From Coq Require Import List NArith ZArith Bool.
 From Coq Require Import Uint63.
-From Verif Require Import Model.Access Corr.Common Corr.AuthInts.
+From Verif Require Import Model.Access Model.Auth Corr.Common Corr.AuthInts.
 Import ListNotations.
 Open Scope N_scope.
 
 Record point := {
   p_mode : N;            (* os.FileMode reported by the backend's Lstat, as a number *)
   p_fuid : N; p_fgid : N; (* owner and group of the object as GetAttr reports them *)
-  p_euid : N; p_egid : N; (* effective ids the handler saw *)
-  p_aux : option (list N); (* AuthSys.AuxGIDs; None = no AUTH_SYS credential (AUTH_NONE) *)
+  p_euid : N; p_egid : N; (* effective ids: squash table applied to the raw credential *)
+  p_aux : option (list N); (* effective auxiliary gids; None = no AUTH_SYS credential (AUTH_NONE) *)
+  p_ctx_uid : N; p_ctx_gid : N; (* AuthContext.EffectiveUID/GID as HandleCall stored them *)
   p_access : N;          (* requested mask (any 32-bit value) *)
   p_ro : bool;           (* export read-only *)
   p_obs : N              (* `access` word of the ACCESS3resok reply *)
 }.
 
-(* as written by the driver: the same fields, in this order, as primitive integers (see AuthInts.v) *)
-Inductive ipoint := IP (mode fuid fgid euid egid : int) (aux : option (list int)) (access : int) (ro : bool) (obs : int).
+(* as written by the driver, as primitive integers (see AuthInts.v):
+   object mode/owner/group; export squash mode; raw uid, gid, auxiliary gids of the credential
+   (None = AUTH_NONE); effective ids found in the AuthContext; mask; read-only; observed word *)
+Inductive ipoint :=
+  IP (mode fuid fgid : int) (squash : skind) (ruid rgid : int) (raux : option (list int))
+     (ctx_uid ctx_gid : int) (access : int) (ro : bool) (obs : int).
 Definition point_of (p : ipoint) : point :=
   match p with
-  | IP mode fuid fgid euid egid aux access ro obs =>
-      {| p_mode := n_of mode; p_fuid := n_of fuid; p_fgid := n_of fgid; p_euid := n_of euid; p_egid := n_of egid;
-         p_aux := option_map ns_of aux; p_access := n_of access; p_ro := ro; p_obs := n_of obs |}
+  | IP mode fuid fgid squash ruid rgid raux cu cg access ro obs =>
+      let eff := match raux with
+                 | Some a => let t := squash_table squash (n_of ruid) (n_of rgid) (ns_of a) in
+                             (fst (fst t), snd (fst t), Some (snd t))
+                 | None => (nobody, nobody, None)      (* AUTH_NONE: nobody/nobody, no AuthSys *)
+                 end in
+      {| p_mode := n_of mode; p_fuid := n_of fuid; p_fgid := n_of fgid;
+         p_euid := fst (fst eff); p_egid := snd (fst eff); p_aux := snd eff;
+         p_ctx_uid := n_of cu; p_ctx_gid := n_of cg;
+         p_access := n_of access; p_ro := ro; p_obs := n_of obs |}
   end.
 Definition case := list ipoint.
 
@@ -33,7 +49,8 @@ Definition caller_of (p : point) : caller :=
 
 (* (1) model vs implementation *)
 Definition point_mismatch (p : point) : bool :=
-  negb (handle_access (p_mode p) (p_fuid p) (p_fgid p) (caller_of p) (p_access p) (p_ro p) =? p_obs p).
+  negb ((handle_access (p_mode p) (p_fuid p) (p_fgid p) (caller_of p) (p_access p) (p_ro p) =? p_obs p) &&
+        (p_ctx_uid p =? p_euid p) && (p_ctx_gid p =? p_egid p)).
 
 (* (2) the statement of C12 on the implementation's own output, without the code-level model:
    granted ⊆ requested and granted = the UNIX rule *)
